@@ -390,8 +390,12 @@ template <typename T> void run_oct(pplv::Rng& g, const std::string& idp, int per
 //     [o]gaffl / [o]gaprel <le|ge|eq> <bl> <lcoeffs> <br> <rcoeffs>
 //                                                       generalized_affine_(pre)image(lhs, relsym, rhs)
 //   lattice / dimension operations (after = <n'>|<closed'>|<matrix or -> | E | X:<class>):
-//     [o]meet [o]join [o]diff [o]tel <closed2> <matrix2>           intersection_assign, upper_bound_assign,
-//                                                                  difference_assign, time_elapse_assign
+//     [o]meet [o]join [o]tel <closed2> <matrix2>                   intersection_assign, upper_bound_assign, time_elapse_assign
+//     [o]diff <closed2> <matrix2> <y_contains_x> <pieces>          difference_assign; the last two arguments are the REAL
+//                  intermediate data of the algorithm, obtained by executing its steps (closure of x [and y], y.contains(x),
+//                  and for every constraint c of y.constraints() not skipped by x.relation_with(c): z = x; z.add_constraint(..);
+//                  z.is_empty()) on copies before the call: y_contains_x = 0/1, pieces = the matrices of the pieces in the order
+//                  of the code, separated by `&`, `N` for a piece found empty, `-` for no piece, `?` when a step threw
 //     [o]concat <n2> <closed2> <matrix2>
 //     [o]embed <k>   [o]project <k>   [o]rmdims <vars|->   [o]rmhi <newdim>
 //     [o]mapdims <pf>      pf: for Variable(i) its image or `x`, comma separated
@@ -457,9 +461,40 @@ static size_t s5_nargs(const std::string& op) {
   if (op == "refv" || op == "gaff" || op == "gapre" || op == "gaffl" || op == "gaprel") return 5;
   if (op == "baff") return 6;
   if (op == "unc" || op == "embed" || op == "project" || op == "rmdims" || op == "rmhi" || op == "mapdims") return 1;
-  if (op == "meet" || op == "join" || op == "diff" || op == "tel" || op == "expand" || op == "fold") return 2;
+  if (op == "meet" || op == "join" || op == "tel" || op == "expand" || op == "fold") return 2;
+  if (op == "diff") return 4;
   if (op == "concat") return 3;
   return 0;
+}
+
+// the intermediate data of difference_assign (see above), computed on copies with the real member functions
+template <typename T> bool diff_closes_y(const BD_Shape<T>&) { return true; }
+template <typename T> bool diff_closes_y(const Octagonal_Shape<T>&) { return false; }
+template <typename S> void diff_side(const S& x0, const std::string& closed2, const std::string& m2, std::string& ycx, std::string& pieces) {
+  ycx = "0"; pieces = "-";
+  try {
+    S x(x0);
+    do_close(x);
+    if (x.marked_empty()) return;
+    S y(x0.space_dimension(), UNIVERSE);
+    load(y, m2, closed2 == "1");
+    if (diff_closes_y(x)) { do_close(y); if (y.marked_empty()) return; }
+    if (x.space_dimension() == 0) return;
+    if (y.contains(x)) { ycx = "1"; return; }
+    std::string r;
+    auto piece = [&](S& z) { if (!r.empty()) r += "&"; r += z.is_empty() ? std::string("N") : dump2(z); };
+    const Constraint_System& y_cs = y.constraints();
+    for (Constraint_System::const_iterator i = y_cs.begin(), e = y_cs.end(); i != e; ++i) {
+      const Constraint& c = *i;
+      if (x.relation_with(c).implies(Poly_Con_Relation::is_included())) continue;
+      S z = x;
+      const Linear_Expression ex(c.expression());
+      z.add_constraint(ex <= 0);
+      piece(z);
+      if (c.is_equality()) { z = x; z.add_constraint(ex >= 0); piece(z); }
+    }
+    if (!r.empty()) pieces = r;
+  } catch (...) { pieces = "?"; }
 }
 
 // the call itself; `op` without the octagon prefix
@@ -623,6 +658,7 @@ template <typename S, typename T> void s5_case(pplv::Rng& g, const std::string& 
       y = S(n, UNIVERSE);
       if (!s5_shape(g, y, false)) return;
       a = {std::to_string(closed_flag(y)), dump2(y)};
+      if (op == "diff") { a.push_back("0"); a.push_back("-"); }      // filled in below, once the receiver exists
     }
     else if (w < 16) {
       op = "concat";
@@ -658,6 +694,7 @@ template <typename S, typename T> void s5_case(pplv::Rng& g, const std::string& 
   }
   S s(n, UNIVERSE);
   if (!s5_shape(g, s, must_close)) return;
+  if (op == "diff") diff_side(s, a[0], a[1], a[2], a[3]);
   std::ostringstream L;
   L << id << " " << op_prefix(s) << op << " " << mode << " " << n << " " << closed_flag(s) << " " << dump2(s) << " ";
   for (const std::string& t : a) L << t << " ";
@@ -719,11 +756,20 @@ template <typename T> void replay_line(const std::vector<std::string>& t) {
       bool oct = op[0] == 'o';
       std::string bop = oct ? op.substr(1) : op;
       size_t k = s5_nargs(bop);
-      for (size_t i = 0; i < k; ++i) headtxt += a.at(i) + " ";
       std::vector<std::string> args(a.begin(), a.begin() + k);
-      put(headtxt);
-      if (oct) { Octagonal_Shape<T> s(n, UNIVERSE); load(s, t[5], closed); after = s5_apply(s, bop, args); }
-      else { BD_Shape<T> s(n, UNIVERSE); load(s, t[5], closed); after = s5_apply(s, bop, args); }
+      // the head is written when the receiver exists (difference_assign: its intermediate data are recomputed on this tree)
+      if (oct) {
+        Octagonal_Shape<T> s(n, UNIVERSE); load(s, t[5], closed);
+        if (bop == "diff") diff_side(s, args[0], args[1], args[2], args[3]);
+        for (const std::string& x : args) headtxt += x + " ";
+        put(headtxt); after = s5_apply(s, bop, args);
+      }
+      else {
+        BD_Shape<T> s(n, UNIVERSE); load(s, t[5], closed);
+        if (bop == "diff") diff_side(s, args[0], args[1], args[2], args[3]);
+        for (const std::string& x : args) headtxt += x + " ";
+        put(headtxt); after = s5_apply(s, bop, args);
+      }
       put(after + "\n");
       return;
     }
